@@ -7,6 +7,7 @@
 package zzverifapi
 
 import (
+	"crypto/sha256"
 	"encoding/json"
 	"fmt"
 	"io"
@@ -49,6 +50,19 @@ func load() {
 			vals = rf.Values
 		}
 	})
+}
+
+// lookupOK is lookup that also reports whether the replay file has a value for name.
+func lookupOK(name string) (*big.Int, bool) {
+	load()
+	mu.Lock()
+	key := name
+	if n := seen[name]; n > 0 {
+		key = name + "#" + strconv.Itoa(n)
+	}
+	_, ok := vals[key]
+	mu.Unlock()
+	return lookup(name), ok
 }
 
 func lookup(name string) *big.Int {
@@ -195,7 +209,25 @@ type replayReader struct {
 }
 
 func (r *replayReader) Read(p []byte) (int, error) {
-	v := lookup(r.name + "#" + strconv.Itoa(r.n))
+	key := r.name + "#" + strconv.Itoa(r.n)
+	v, ok := lookupOK(key)
+	if !ok && os.Getenv("VERIF_DEFAULT") == "" {
+		// a draw the solver's model says nothing about was unconstrained on that path: any value
+		// is an instance of it. A deterministic pseudo-random one is used (zeros would make
+		// rejection samplers of the real code spin forever).
+		var stream []byte
+		for ctr := 0; len(stream) < len(p); ctr++ {
+			h := sha256.Sum256([]byte(key + "/" + strconv.Itoa(ctr)))
+			stream = append(stream, h[:]...)
+		}
+		copy(p, stream)
+		v = new(big.Int).SetBytes(p)
+		if r.pred != nil && !r.pred(r.n, v) {
+			panic(AssumeViolated{"coin-predicate:" + r.name})
+		}
+		r.n++
+		return len(p), nil
+	}
 	if r.pred != nil && !r.pred(r.n, v) {
 		panic(AssumeViolated{"coin-predicate:" + r.name})
 	}
